@@ -540,6 +540,14 @@ func (Punishment) Check(t *explore.Transition) ([]V, bool) {
 	h := m.h
 	nontrivial := anyLimit || anyEvidence
 
+	// (−1) the record of missed blocks as the committed state holds it (what a restarted node,
+	// a query at this height or an export counts from) must be the node's
+	for _, d := range post.DiskDiff {
+		if obs.KeyClass(d.Key) == "val/*/absent" {
+			add("absence-window|committed-record-differs", "%s: the node holds %q, its committed state %q", d.Key, d.A, d.B)
+		}
+	}
+
 	// (0) the model and the node agree on who was a validator before the block (else the model is lost: report once, loudly)
 	if !m.ff {
 		for _, c := range m.cands {
